@@ -90,7 +90,7 @@ def _cases(draw):
         schema_kw={"scalar_names": ("Money", "DateTime", "Cents"), "n_scalars": (1, 3), "scalar_weight": 4, "input_heavy": d.bool(0.6),
                    "defaults": 0.0, "rich_names": True},
         ops_kw={"var_p": 0.7, "frag_p": 0.4}, doc_kw={"n_ops": (1, 3), "n_frags": (0, 3)},
-        desc_hook=hook, config_desc_fn=cfg_fn, omit_p=0.35,
+        desc_hook=hook, config_desc_fn=cfg_fn, omit_p=0.35, subscriptions_if_async=True,
     )
     case.pop("_desc_obj", None)
     if case.get("rejected"):
@@ -188,8 +188,6 @@ def run_case(case, scratch):
 
     for call in case["calls"]:
         op = sess.ops[call["op"]]
-        if op["kind"] == "subscription":
-            continue
         units += 1
         del impl.CALLS[:]
         r = sess.call(call)
@@ -218,7 +216,9 @@ def run_case(case, scratch):
             fail("serialize_count", "unconfigured", f"{op['name']}: serialize called although not configured")
         expected_vars = {k: sent_json(v, "serialize" in extras) for k, v in call["args"].items()}
         if True:
-            if body.get("variables") != expected_vars:
+            if op["kind"] == "subscription" and not expected_vars and "variables" not in body:
+                pass  # the subscribe payload of graphql-transport-ws may omit an empty variables member
+            elif body.get("variables") != expected_vars:
                 fail("sent_value", "", f"{op['name']}: variables {json.dumps(body.get('variables'))[:250]} expected {json.dumps(expected_vars)[:250]}")
         # ---- results
         rec = r["rec"]
